@@ -221,7 +221,7 @@ def check_ladder(chk, key, r, st_, calls, file):
     resample = None
     for d in r.state.decisions:
         s = fmt(d[0])
-        if 'havoc' in s:
+        if 'havoc' in s or 'call(memory_write_byte)' in s:
             resample = d[0]
             break
     if resample is None:
